@@ -385,7 +385,22 @@ func init() {
 		}
 		sort.Strings(names)
 		for _, n := range names {
-			out = append(out, &h.Scn{Name: "RT/" + n, Body: rp[n], Opts: verifrt.Options{Unbounded: true}})
+			n := n
+			sc := &h.Scn{Name: "RT/" + n, Body: rp[n], Opts: verifrt.Options{Unbounded: true}}
+			sc.Final = func() []h.Finding {
+				if !verifrt.RaceEnabled {
+					return nil
+				}
+				got := h.RaceReports["RT/"+n]
+				if strings.HasPrefix(n, "race/bad") && got == 0 {
+					return []h.Finding{{Sig: "RT/" + n + "/not-reported", Msg: "the race detector did not report the unsynchronised access pair of this program on any explored schedule"}}
+				}
+				if strings.HasPrefix(n, "race/ok") && got > 0 {
+					return []h.Finding{{Sig: "RT/" + n + "/false-report", Msg: fmt.Sprintf("the race detector reported %d race(s) in a correctly synchronised program: an annotation of the runtime is missing", got)}}
+				}
+				return nil
+			}
+			out = append(out, sc)
 		}
 		return out, nil
 	})
